@@ -358,9 +358,9 @@ def to_source(spec, form_name="a", with_prelude=True) -> str:
         tr = spec.get("transform")
         if tr:
             if tr[0] == "derivative":  # Gateaux derivative w.r.t. coefficient -> needs an argument
+                # left unexpanded: the compiler under test has to differentiate (and to notice that f_k drops out)
                 L.append(
-                    f"{form_name}_expr = ufl.algorithms.expand_derivatives("
-                    f"ufl.derivative({form_name}_expr, f{int(tr[1])}, ufl.TrialFunction(f{int(tr[1])}.ufl_function_space())))"
+                    f"{form_name}_expr = ufl.derivative({form_name}_expr, f{int(tr[1])}, ufl.TrialFunction(f{int(tr[1])}.ufl_function_space()))"
                 )
             elif tr[0] == "diff":  # d/d f_k   (ufl.diff with variable)
                 raise ValueError(tr)
